@@ -1527,3 +1527,95 @@ def n_default(ex, callee, a, env):
     if pt[0] == 'Vec':
         return HVec(int(type_str(pt[1][-1])))
     raise Unsupported('Default for ' + ty)
+
+
+# ----------------------------------------------------------------------------- more iterator adaptors (slice iterators)
+@native(r'as (DoubleEndedIterator|Iterator|ExactSizeIterator)>::rposition$', 'Iterator::rposition')
+def n_rposition(ex, callee, a, env):
+    it, f = deref(a[0]), a[1]
+    i = it.sl.len
+    end = it.sl.len
+    while end > it.pos:
+        end -= 1
+        r = Ref(it.sl.buf, it.sl.start + end)
+        if ex.truth(ex.call_value(f, [r])):
+            it.sl = Slice(it.sl.buf, it.sl.start, end, it.sl.is_str)
+            return Some(end - it.pos)
+    it.sl = Slice(it.sl.buf, it.sl.start, it.pos, it.sl.is_str)
+    return NONE()
+
+
+@native(r'as Iterator>::(any|all)$', 'Iterator::any/all')
+def n_any_all(ex, callee, a, env):
+    it, f = deref(a[0]), a[1]
+    want_any = callee.endswith('any')
+    while it.pos < it.sl.len:
+        r = Ref(it.sl.buf, it.sl.start + it.pos)
+        i = it.pos
+        it.pos += 1
+        t = ex.truth(ex.call_value(f, [Tup([i, r]) if it.enum else r]))
+        if want_any and t:
+            return True
+        if not want_any and not t:
+            return False
+    return not want_any
+
+
+@native(r'as Iterator>::find$', 'Iterator::find')
+def n_find(ex, callee, a, env):
+    it, f = deref(a[0]), a[1]
+    while it.pos < it.sl.len:
+        r = Ref(it.sl.buf, it.sl.start + it.pos)
+        it.pos += 1
+        if ex.truth(ex.call_value(f, [Ref([r], 0)])):
+            return Some(r)
+    return NONE()
+
+
+@native(r'as Iterator>::count$|as ExactSizeIterator>::len$', 'Iterator::count')
+def n_count(ex, callee, a, env):
+    it = deref(a[0])
+    return it.sl.len - it.pos
+
+
+@native(r'as Iterator>::last$', 'Iterator::last')
+def n_iter_last(ex, callee, a, env):
+    it = deref(a[0])
+    if it.pos >= it.sl.len:
+        return NONE()
+    return Some(Ref(it.sl.buf, it.sl.start + it.sl.len - 1))
+
+
+@native(r'as DoubleEndedIterator>::next_back$', 'DoubleEndedIterator::next_back')
+def n_next_back(ex, callee, a, env):
+    it = deref(a[0])
+    if it.pos >= it.sl.len:
+        return NONE()
+    r = Ref(it.sl.buf, it.sl.start + it.sl.len - 1)
+    it.sl = Slice(it.sl.buf, it.sl.start, it.sl.len - 1, it.sl.is_str)
+    return Some(r)
+
+
+@native(r'^(core::)?slice::<impl \[.*\]>::(split_first|split_last)$', 'slice::split_first/last')
+def n_split_first(ex, callee, a, env):
+    sl = as_slice(a[0])
+    if sl.len == 0:
+        return NONE()
+    if callee.endswith('split_first'):
+        return Some(Tup([Ref(sl.buf, sl.start), Slice(sl.buf, sl.start + 1, sl.len - 1, sl.is_str)]))
+    return Some(Tup([Ref(sl.buf, sl.start + sl.len - 1), Slice(sl.buf, sl.start, sl.len - 1, sl.is_str)]))
+
+
+@native(r'^(core::)?slice::<impl \[.*\]>::(ends_with)$', 'slice::ends_with')
+def n_ends_with(ex, callee, a, env):
+    x, y = as_slice(a[0]), as_slice(a[1])
+    if y.len > x.len:
+        return False
+    return _all_eq(x.items()[x.len - y.len:], y.items())
+
+
+@native(r'^(core::)?slice::<impl \[.*\]>::(iter_mut|as_ptr|as_mut_ptr)$', 'slice::iter_mut')
+def n_iter_mut(ex, callee, a, env):
+    if callee.endswith('iter_mut'):
+        return Iter(as_slice(a[0]))
+    raise Unsupported('raw pointer to slice')
